@@ -121,7 +121,8 @@ def _worker_batch(cid, root_seed, tier, indices, run_cap_s, want_samples):
             cnt[k] = cnt.get(k, 0) + v
         out["sim_time"] += res.get("sim_time", 0.0)
         if res.get("nontrivial"):
-            out["digests"].add(int(res["digest"][:12], 16))
+            # digests are arbitrary strings: hash them so that any check-chosen label works
+            out["digests"].add(derive_seed(res["digest"]) & 0xFFFFFFFFFFFF)
         if want_samples and len(out["samples"]) < want_samples and res.get("nontrivial"):
             out["samples"].append({"run": idx, "case": res.get("case", case),
                                    "observed": res.get("summary")})
